@@ -1,8 +1,8 @@
 (* C09 The stored workflow satisfies its invariants after every transaction.
    Property theorems only; proofs in proofs/Graph*.v (see design.d/C09.md). *)
 From Coq Require Import List NArith Bool Relations.
-From SV Require Import lib.Bytes lib.Closure model.Graph model.GraphInv gen.GenGraph
-  proofs.GraphNodes proofs.GraphProofs proofs.GraphTables proofs.GraphTrans.
+From SV Require Import lib.Bytes lib.Closure model.Graph model.GraphDump model.GraphInv model.GraphTree model.GraphTreeInv
+  gen.GenGraph proofs.GraphNodes proofs.GraphProofs proofs.GraphTables proofs.GraphTrans proofs.GraphTreeSim.
 Import ListNotations.
 Open Scope N_scope.
 
@@ -243,6 +243,59 @@ Proof. exact file_transitions_documented. Qed.
 Theorem C09_no_new_file_rows :
   forall o s l, declares_files o = false -> find_file l (apply_op s o) <> None -> find_file l s <> None.
 Proof. exact no_new_file_rows. Qed.
+
+(* ------------------------------------------------------------------------------------------ *)
+(* 6. static trees (model/GraphTree.v): op_t = OpBase op | OpRegisterTree                       *)
+(* ------------------------------------------------------------------------------------------ *)
+(* On a tree-free state (no static-tree node, no creator column referring to one) the tree-aware
+   operations are the operations of model/Graph.v, and the tree-free fragment is closed: every
+   theorem above is a theorem about step_op_t on that fragment. *)
+Theorem C09_tree_free_simulation :
+  forall o s, no_tree_b s = true -> step_op_t (OpBase o) s = step_op o s.
+Proof. exact step_op_t_base_eq. Qed.
+
+Theorem C09_tree_free_closed :
+  forall o s, no_tree_b s = true -> no_tree_b (apply_op s o) = true.
+Proof. exact no_tree_preserved. Qed.
+
+Theorem C09_tree_free_runs :
+  forall cap ops, run_ops_t (map OpBase ops) (init_st cap) = run_ops ops (init_st cap).
+Proof. intros cap ops. apply run_ops_t_base_eq. vm_compute. reflexivity. Qed.
+
+(* Finding D33 (open): a full recycle revives a detached static tree without the ownership checks of
+   register_static_tree.  A registers the tree d/; the rerun of the plan detaches A and the tree;
+   B builds d/g0 and registers the tree d/e/; the plan declares A again identically.  Afterwards
+   two attached trees are nested and an attached PLANNED output lies under an attached tree. *)
+Definition treeA : str := [65]. Definition treeB : str := [66].
+Definition dir_d : str := [100; 47]. Definition dir_de : str := [100; 47; 101; 47].
+Definition d_g0 : str := [100; 47; 103; 48].
+Definition recycle_tree_witness : list op_t :=
+  [OpBase (OpDeclareStatic root_key [[112]]);
+   OpBase (OpUpdateHashes CConfirmed [([112], Some 1)]);
+   OpBase (OpDefineStep root_key plan_label [[112]] [] [] [] NPlan);
+   OpBase (OpDispatch plan_label);
+   OpBase (OpResetForRerun plan_label);
+   OpBase (OpDefineStep (KStep, plan_label) treeA [] [] [] [] NDefault);
+   OpBase (OpExecEnd plan_label [] CSucceeded [] true false);
+   OpBase (OpDispatch treeA);
+   OpBase (OpResetForRerun treeA);
+   OpRegisterTree (KStep, treeA) dir_d;
+   OpBase (OpExecEnd treeA [] CSucceeded [] true false);
+   OpBase (OpMarkStepPending plan_label);
+   OpBase (OpDispatch plan_label);
+   OpBase (OpResetToPending plan_label);
+   OpBase (OpDispatch plan_label);
+   OpBase (OpResetForRerun plan_label);
+   OpBase (OpDefineStep (KStep, plan_label) treeB [] [] [d_g0] [] NDefault);
+   OpBase (OpDispatch treeB);
+   OpBase (OpResetForRerun treeB);
+   OpRegisterTree (KStep, treeB) dir_de;
+   OpBase (OpDefineStep (KStep, plan_label) treeA [] [] [] [] NDefault)].
+Theorem C09_tree_ownership_refuted :
+  exists cap ops, let s := run_ops_t ops (init_st cap) in
+    protocol_ok_run_t (init_st cap) ops = true /\ inv_full_b s = true /\ inv_treefile_b s = true /\
+    inv_trees_nonnested_b s = false /\ inv_tree_owns_b s = false.
+Proof. exists 3, recycle_tree_witness. vm_compute. repeat split; reflexivity. Qed.
 
 (* ------------------------------------------------------------------------------------------ *)
 (* 5. the hand-written tables of the model equal the tables regenerated from the source        *)
